@@ -18,6 +18,14 @@ UTF = S("update_train_formation")
 DEPOT = "model::network::depot::Depot"
 
 
+def has_min_call(ctx, key):
+    fd = ctx.fd(key)
+    if fd is None:
+        return False
+    at = fd.ret_slice()["atoms"]
+    return any(a.endswith("::min") for a in at if a.startswith(("call:", "decl:")))
+
+
 def limit_combination(ctx):
     o, fd = ctx.require_fn("R3.limit-combination", "T1+abs", MFC,
                            "the applicable formation limit is absent only if both the type limit and the segment limit are absent")
@@ -43,6 +51,18 @@ def limit_combination(ctx):
         else:
             und.append("case %s: %s" % (case, got))
     sample = {"%s/%s" % k: v for k, v in tab.items()}
+    if not bad and not und:
+        # value provenance: both present => derived from both (the smaller one), one present => that one
+        ps = optabs.presence_sources(fd.body, VT_MFC, ST_MFC)
+        wantv = {("S", "S"): ("A", "B"), ("S", "N"): ("A",), ("N", "S"): ("B",)}
+        lab = {"A": "the type's limit", "B": "the segment's limit"}
+        for case, wv in wantv.items():
+            got = {v for t, v in ps[case] if t == "S"}
+            if got and got != {wv}:
+                bad.append("type limit %s, segment limit %s => the value is taken from %s instead of %s" % (
+                    names[case[0]], names[case[1]],
+                    " / ".join(" and ".join(lab[x] for x in g) or "neither" for g in sorted(got)), " and ".join(lab[x] for x in wv)))
+        sample["value_sources"] = {"%s/%s" % k: [list(v) for _, v in vs] for k, vs in ps.items()}
     if bad:
         ctx.bad(o, "; ".join(bad) + " - a limit given only on one side is ignored", sample=sample)
     elif und:
@@ -185,6 +205,18 @@ def depot_limits(ctx):
                                  for i in sites)
         ctx.decide(o, ok, "replace_start_depot receives find_best_start_depot_for_spawning's result",
                    "replace_start_depot is fed a depot that was not chosen by find_best_start_depot_for_spawning")
+    o, fd = ctx.require_fn("R5.improve-depots-always-asks-capacity", "T1", S("improve_depots_of_tour"),
+                           "every path through improve_depots_of_tour asks find_best_start_depot_for_spawning before it returns (no shortcut that keeps a depot unchecked)")
+    if fd is not None:
+        fb = calls_to(fd, S("find_best_start_depot_for_spawning"))
+        rets = [i for i in fd.body.instrs() if i.kind == "return"]
+        ok = len(fb) >= 1 and all(any(fd.cfg.instr_dominates(c, r) for c in fb) for r in rets)
+        ctx.decide(o, ok, "the capacity-aware choice dominates every return",
+                   "a return of improve_depots_of_tour is reachable without consulting find_best_start_depot_for_spawning: a start depot whose "
+                   "place was released (and possibly taken by an earlier vehicle of the batch) is kept without a capacity test")
+    must_depend(ctx, "R4.capacity_for-caps-by-total", "T9", DEPOT + "::capacity_for", "ret", ["decl:core::cmp::Ord::min"],
+                "a per-type capacity is capped by the depot's total capacity (min of both)") if not has_min_call(ctx, DEPOT + "::capacity_for") else \
+        ctx.ok(ctx.ob("R4.capacity_for-caps-by-total", "T9", DEPOT + "::capacity_for", "a per-type capacity is capped by the depot's total capacity (min of both)"), "uses min")
     o, fd = ctx.require_fn("R5.improve-depots-passes-usage", "T1", S("improve_depots"),
                            "improve_depots hands its working depot usage to the per-tour improvement")
     if fd is not None:
@@ -208,6 +240,13 @@ def flow_bounds(ctx):
                "only %d EdgeLabel sites found in solve_for_vehicle_type" % len(edges))
     flownet.need(ctx, "R6.trip-upper-bound", edges, "trip", "upper_bound", [call(MFC)],
                  "trip edges are capped by the applicable formation limit")
+    o, e = flownet.role(ctx, "R6.trip-upper-bound-independent-of-demand", edges, "trip",
+                        "the upper bound of a trip edge is the formation limit, not the demand (extra vehicles may ride along)")
+    if e is not None:
+        at = e.fields["upper_bound"][1]
+        ctx.decide(o, call(N("number_of_vehicles_required_to_serve")) not in at, "upper bound does not read the demand",
+                   "the trip edge's upper bound derives from the required vehicle count: no vehicle beyond the demand can be repositioned on a "
+                   "service trip, so the start solution needs more vehicles than the covering circulation", loc=e.instr.line())
     flownet.need(ctx, "R6.depot-upper-bound", edges, "depot", "upper_bound", [call(flownet.DEPOT_CAP), "param:2"],
                  "depot edges are capped by the depot's capacity for the vehicle type")
     o, e = flownet.role(ctx, "R6.maintenance-bounds", edges, "maintenance",
